@@ -201,6 +201,22 @@ def assign_time_zones(cases):
             ops[0]["tz"] = TZ_POOL[(h // 4) % len(TZ_POOL)]
 
 
+LOCALE_POOL = ["en_US-like", "de_DE-like"]
+
+
+def assign_locales(cases):
+    """One case in six runs under a global C++ locale with digit grouping and (for one of the two) a decimal comma,
+    installed by the first op (so witnesses replay it)."""
+    import zlib as _z
+    for c in cases:
+        ops = c.get("ops") or []
+        if not ops or "locale" in ops[0] or c.get("no_locale"):
+            continue
+        h = _z.crc32(("l" + str(c.get("id"))).encode())
+        if h % 6 == 0:
+            ops[0]["locale"] = LOCALE_POOL[(h // 6) % len(LOCALE_POOL)]
+
+
 def assign_storage(cases):
     """One case in five that asks for a temporary (in-memory) library gets an on-disk one instead, in a directory under
     the runner's scratch area ("@W/<id>", resolved, made and removed by the executor); the choice travels in the op."""
@@ -315,8 +331,13 @@ def run_cases(cases, cfg="plain", jobs=None, stall_timeout=60, on_result=None, c
     jobs = jobs or min(16, os.cpu_count() or 4)
     cases = list(cases)
     assign_time_zones(cases)
+    assign_locales(cases)
     assign_storage(cases)
     for c in cases:
+        lc = (c.get("ops") or [{}])[0].get("locale")
+        if lc:
+            ENV_STATS.setdefault("cases_run_under_a_global_locale_with_digit_grouping", {})[lc] = \
+                ENV_STATS.get("cases_run_under_a_global_locale_with_digit_grouping", {}).get(lc, 0) + 1
         tz = (c.get("ops") or [{}])[0].get("tz")
         if tz:
             ENV_STATS["cases_run_in_a_non_utc_time_zone"] = ENV_STATS.get("cases_run_in_a_non_utc_time_zone", 0) + 1
